@@ -272,6 +272,23 @@ CLAIMED.update({
     },
 })
 
+CLAIMED.update({
+    "C34": {
+        "technique": "static analysis: per-variant payload-field coverage of Hash::hash vs PartialEq::eq extracted from MIR projections",
+        "level": ("Static, every ScalarValue variant with a payload (50): the payload fields read by the Hash impl are a subset of those "
+                  "read by the PartialEq impl, and both impls treat floats through their bit pattern. This decides only the clause "
+                  "'equal scalars have equal hashes' (a component hashed but not compared breaks it); the other four clauses of C34 "
+                  "(array round trips, casts, ordering) are value-level and not decided."),
+    },
+    "C38": {
+        "technique": "static analysis: exhaustive evaluation of the unparser's operator / join mappings composed with the SQL planner's inverse mappings",
+        "level": ("Static, exhaustive: for the 40 operators and 8 join types the unparser accepts, the SQL token / JOIN operator it emits is "
+                  "mapped back to the same Operator / JoinType by the SQL planner (refused variants and the dialect-dependent Divide are "
+                  "listed as skipped). A thin necessary condition of 'generated SQL means the same'; expressions, aliases, subqueries and "
+                  "dialect quirks are not decided."),
+    },
+})
+
 NA = {
     'C01': 'whole-pipeline value semantics over all queries x all table contents: functional verification, no clause visible in code shape beyond C03/C05/C47',
     'C08': 'ordering/permutation of runtime values (loser tree, cursors, heaps are value algorithms); no structural clause',
